@@ -37,6 +37,13 @@ def gen_intervals(rng, n=None, scale=None):
         b = a + ln
         ivs.append((a, b))
         t = b
+    if rng.random() < 0.25:
+        # Python-truthiness trap: make exactly 0.0 an interesting time (an edge, an interior point, a gap point)
+        pts = [x for p in ivs for x in p] + [(a + b) / 2 for a, b in ivs] + [(p[1] + q[0]) / 2 for p, q in zip(ivs, ivs[1:])]
+        z = rng.choice(pts)
+        sh = [(a - z, b - z) for a, b in ivs]
+        if all(a <= b for a, b in sh) and all(p[1] <= q[0] for p, q in zip(sh, sh[1:])):
+            ivs = sh
     return ivs
 
 
@@ -51,10 +58,14 @@ def interesting_times(rng, ivs):
     for (a, b), (c, d) in zip(ivs, ivs[1:]):
         ts.append((b + c) / 2)
     lo, hi = edges[0], edges[-1]
+    if lo <= 0.0 <= hi:
+        ts.append(0.0)
     span = max(hi - lo, 1.0)
     ts += [lo - span, lo - 1e-9 * span, hi + 1e-9 * span, hi + span]
     ts += [lo + rng.random() * span for _ in range(4)]
-    return [float(t) for t in ts]
+    # no subnormal times: u*L < L for u < 1 holds for normal doubles only (IEEE corner outside the theorems)
+    ts = [float(t) for t in ts]
+    return [t if (t == 0.0 or abs(t) >= 1e-300) else (1e-300 if t > 0 else -1e-300) for t in ts]
 
 
 # ------------------------------------------------------------------------------------------
@@ -271,6 +282,12 @@ def _corr_lines(case):
         except Exception as e:  # noqa
             v = 'EXC:' + type(e).__name__
         return 'draw %s %s' % (es, f2b(case['u'])), v
+    if k == 'drawwin':
+        try:
+            v = f2b(mk(ivs).draw_ontimes(_StubRSS([case['u']]), 1, t_min=case['a0'], t_max=case['a1'])[0])
+        except Exception as e:  # noqa
+            v = 'EXC:' + type(e).__name__
+        return 'drawwin %s %s %s %s' % (es, f2b(case['t0']), f2b(case['t1']), f2b(case['u'])), v
     raise ValueError(k)
 
 
@@ -284,7 +301,7 @@ def _corr_compare(case, impl, model):
             return 'between: index model %s differs from specification model %s' % (idx, spec)
         return None
     if impl != model:
-        if k in ('upto', 'draw') and impl.isdigit() and model.isdigit():
+        if k in ('upto', 'draw', 'drawwin') and impl.isdigit() and model.isdigit():
             # computed floats: bit-exactness is diagnostic only; the verdict relation is a tolerance
             a, b = b2f(impl), b2f(model)
             scale = sum(abs(x) for p in case['ivs'] for x in p) + abs(case.get('t', 0.0))
@@ -300,7 +317,7 @@ ORACLES = {
 }
 
 # which property oracle looks at the same behaviour as a correspondence kind
-_ORACLE_OF_KIND = {'ison': 'is_on', 'between': 'between', 'upto': 'upto', 'draw': 'draw'}
+_ORACLE_OF_KIND = {'ison': 'is_on', 'between': 'between', 'upto': 'upto', 'draw': 'draw', 'drawwin': 'draw'}
 
 
 def _oracle_case_for(case):
@@ -313,6 +330,8 @@ def _oracle_case_for(case):
         return {'ivs': case['ivs'], 'ts': [case['t']]}
     if k == 'draw':
         return {'ivs': case['ivs'], 'us': [case['u']]}
+    if k == 'drawwin':
+        return {'ivs': case['ivs'], 'us': [case['u']], 't0': case['a0'], 't1': case['a1']}
 
 
 def run(ctx):
@@ -356,13 +375,30 @@ def run(ctx):
             oracle_cases.append(('draw', {'ivs': ivs, 'us': us}))
             for u in us:
                 cases.append({'kind': 'draw', 'ivs': ivs, 'u': float(u)})
-            # windowed draw
-            inter = [t for t in sts if ref_is_on(ivs, t)]
-            if inter:
-                t0 = rng.choice(inter)
-                t1 = rng.choice([t for t in sts if t >= t0])
-                if ref_intersection(ivs, t0, t1):
+            # windowed draws (bounds among the interesting times, exactly 0.0 preferred when available, or None)
+            for _ in range(ctx.n(4, 8)):
+                i = rng.randrange(len(sts))
+                j = rng.randrange(i, len(sts))
+                t0, t1 = sts[i], sts[j]
+                if 0.0 in sts and rng.random() < 0.5:
+                    if rng.random() < 0.5:
+                        t0 = 0.0
+                        t1 = rng.choice([t for t in sts if t >= 0.0])
+                    else:
+                        t1 = 0.0
+                        t0 = rng.choice([t for t in sts if t <= 0.0])
+                r = rng.random()
+                if r < 0.15:
+                    t0 = None
+                elif r < 0.3:
+                    t1 = None
+                lo_ = ivs[0][0] if t0 is None else t0
+                hi_ = ivs[-1][1] if t1 is None else t1
+                if ref_intersection(ivs, lo_, hi_):
                     oracle_cases.append(('draw', {'ivs': ivs, 'us': us, 't0': t0, 't1': t1}))
+                    ctx.count('draw:window' + (':zero-bound' if (t0 == 0.0 and t0 is not None) or (t1 == 0.0 and t1 is not None) else ''))
+                    cases.append({'kind': 'drawwin', 'ivs': ivs, 'u': float(rng.choice(us)), 't0': lo_, 't1': hi_,
+                                  'a0': t0, 'a1': t1})
         times = [rng.choice(ts) for _ in range(rng.randrange(0, 12))]
         i = rng.randrange(len(sts))
         j = rng.randrange(i, len(sts))
